@@ -80,6 +80,10 @@ type hist struct {
 	Cuts     []cutIn  `json:"cuts,omitempty"`
 	CutLooks []string `json:"cut_lookups,omitempty"`
 	Blocks   []blkIn  `json:"blocks,omitempty"`
+	// a writer that died before Save at the same path: records it wrote + a torn tail
+	Old     []recIn `json:"old,omitempty"`
+	OldTail string  `json:"old_tail,omitempty"`
+	HasOld  bool    `json:"has_old,omitempty"`
 }
 
 func unhex(s string) []byte {
@@ -273,6 +277,8 @@ func runTasks(tasks []task, slow map[int]bool) map[int]result {
 type dbRun struct {
 	h          hist
 	dir        string
+	old        []byte   // data file left by the crashed first writer
+	wlen       int      // bytes written by the second writer
 	data, hdr  []byte   // the files the real code wrote
 	stored     [][]byte // stored payload per write (parsed from the data file in write order)
 	layoutOK   bool
@@ -288,6 +294,29 @@ var zstd = func() *common.ZStdCompDe { z := common.NewZStdCompDe(); z.SetLevel(1
 func writeDB(h hist, dir string) *dbRun {
 	r := &dbRun{h: h, dir: dir}
 	file := filepath.Join(dir, "db")
+	if h.HasOld {
+		// first attempt: Create, some WriteData, then the process dies (no Save)
+		db0, err := blockdb.NewBlockDB(file, int8(h.Klen), h.Compress)
+		if err != nil {
+			panic(err)
+		}
+		if err := db0.Create(); err != nil {
+			panic(err)
+		}
+		for _, rc := range h.Old {
+			_ = db0.WriteData(&rawRec{key: string(unhex(rc.K)), data: unhex(rc.P)})
+		}
+		_ = db0.Close()
+		if h.OldTail != "" {
+			f, err := os.OpenFile(file+".dat", os.O_WRONLY|os.O_APPEND, 0o644)
+			if err != nil {
+				panic(err)
+			}
+			_, _ = f.Write(unhex(h.OldTail))
+			_ = f.Close()
+		}
+		r.old, _ = os.ReadFile(file + ".dat")
+	}
 	db, err := blockdb.NewBlockDB(file, int8(h.Klen), h.Compress)
 	if err != nil {
 		panic(err)
@@ -324,7 +353,13 @@ func writeDB(h hist, dir string) *dbRun {
 		r.stored = append(r.stored, d[4:4+n])
 		d = d[4+n:]
 	}
-	if len(d) != 0 {
+	r.wlen = len(r.data) - len(d)
+	// behind the written records only what was left of the old file may remain
+	var tail []byte
+	if r.wlen < len(r.old) {
+		tail = r.old[r.wlen:]
+	}
+	if !bytes.Equal(d, tail) {
 		r.layoutOK = false
 	}
 	return r
@@ -584,6 +619,21 @@ func genDB(r *vh.Rand, big bool) hist {
 		}
 		h.Recs = append(h.Recs, recIn{K: k, P: hex.EncodeToString(p)})
 	}
+	// 1 in 3: a writer died at this path before Save, leaving a data file of some length
+	if r.Chance(1, 3) {
+		h.HasOld = true
+		no := r.Range(0, n+3)
+		for i := 0; i < no; i++ {
+			k := hex.EncodeToString(randBytes(r, h.Klen, alpha))
+			if len(keys) > 0 && r.Bool() {
+				k = keys[r.Intn(len(keys))]
+			}
+			h.Old = append(h.Old, recIn{K: k, P: hex.EncodeToString(randBytes(r, r.Range(0, 30), nil))})
+		}
+		if r.Bool() {
+			h.OldTail = hex.EncodeToString(randBytes(r, r.Range(1, 9), nil))
+		}
+	}
 	// lookups: every written key, plus absent keys around them
 	seen := map[string]bool{}
 	add := func(k string) {
@@ -652,6 +702,7 @@ func genDB(r *vh.Rand, big bool) hist {
 // data cuts favour the last record.
 func resolveCuts(h *hist, dataLen, hdrLen, idxLen int, recStarts []int) {
 	for i, c := range h.Cuts {
+		seq := h.HasOld // over a leftover file only sequential crash states are meaningful
 		if c.D >= 0 && c.H >= 0 {
 			continue
 		}
@@ -685,6 +736,9 @@ func resolveCuts(h *hist, dataLen, hdrLen, idxLen int, recStarts []int) {
 		}
 		if hh > hdrLen {
 			hh = hdrLen
+		}
+		if seq && hh > 0 {
+			d = dataLen // the header is written after all the data
 		}
 		h.Cuts[i] = cutIn{D: d, H: hh}
 	}
@@ -778,7 +832,7 @@ func main() {
 	rep.Rule = "databases: key length 1-16 (oracle-only runs also 32/64/118), 0-12 (0-60) records over a colliding byte alphabet, " +
 		"1 in 8 keys written twice, payloads 0-24 bytes (sometimes 200-3000), 1 in 4 compressed, 1 in 3 with a dbHeader; lookups = every written key + 2-5 absent keys " +
 		"(below, above, neighbours, shorter, longer, random); 4-8 crash cuts of the two files (no header, torn last record, torn header, both); " +
-		"block store: 1-6 blocks with 0-5 transactions, edge coin values, rewritten hashes, magic blocks at/off their starting round. " +
+		"1 in 3 databases are written over the data file of a writer that died before Save at the same path (0..n+3 records + torn tail; crash cuts then sequential); block store: 1-6 blocks with 0-5 transactions, edge coin values, rewritten hashes, magic blocks at/off their starting round. " +
 		"non-trivial db = at least 2 distinct keys read back and at least one absent-key lookup and one crash cut whose Open failed and one that opened; " +
 		"non-trivial store = at least one block with transactions read back; distinct by full input"
 	cf := &vh.CasesFile{Imports: []string{"Base.Corr", "Model.BlockDB", "Corr.BlockDB"}, CaseType: "bdc_case", CheckFn: "bdc_check", Shard: 60}
@@ -865,7 +919,7 @@ func main() {
 			distinct[rc.K] = true
 		}
 		idxLen := 4 + len(distinct)*(it.h.Klen+9)
-		resolveCuts(&it.h, len(run.data), len(run.hdr), idxLen, starts)
+		resolveCuts(&it.h, run.wlen, len(run.hdr), idxLen, starts)
 		run.h = it.h
 		base := task{File: filepath.Join(dir, "db"), Klen: it.h.Klen, Compress: it.h.Compress, HasHdr: it.h.Hdr != nil}
 		t := base
@@ -881,13 +935,17 @@ func main() {
 			cdir := filepath.Join(dir, fmt.Sprintf("c%d", ci))
 			_ = os.MkdirAll(cdir, 0o755)
 			d, hh := c.D, c.H
-			if d > len(run.data) {
-				d = len(run.data)
+			if d > run.wlen {
+				d = run.wlen
 			}
 			if hh > len(run.hdr) {
 				hh = len(run.hdr)
 			}
-			_ = os.WriteFile(filepath.Join(cdir, "db.dat"), run.data[:d], 0o644)
+			cutData := append([]byte{}, run.data[:d]...)
+			if d < len(run.old) {
+				cutData = append(cutData, run.old[d:]...)
+			}
+			_ = os.WriteFile(filepath.Join(cdir, "db.dat"), cutData, 0o644)
 			if hh > 0 { // a crash before Save leaves no header file at all
 				_ = os.WriteFile(filepath.Join(cdir, "db.idx"), run.hdr[:hh], 0o644)
 			}
@@ -926,11 +984,6 @@ func main() {
 	for i, it := range items {
 		kinds := map[string]int{}
 		fail := ""
-		setFail := func(f string) {
-			if fail == "" {
-				fail = f
-			}
-		}
 		if it.h.Kind == "store" {
 			dir := filepath.Join(scratch, fmt.Sprintf("s%d", i))
 			fail = runStore(it.h, dir, kinds)
@@ -965,11 +1018,30 @@ func main() {
 		}
 		run := it.run
 		h := it.h
+		type fkT struct {
+			key string
+			cut int
+		}
+		fails := map[string]fkT{}
+		addFail := func(f, k string, cut int) {
+			if _, ok := fails[f]; !ok {
+				fails[f] = fkT{k, cut}
+			}
+		}
 		if run.writeErr != "" {
-			setFail("write-error")
+			addFail("write-error", "", -1)
+		}
+		if h.HasOld {
+			if len(run.old) > run.wlen {
+				kinds["recreate-leftover-longer-than-new-data"]++
+			} else if len(run.old) > 0 {
+				kinds["recreate-leftover-not-longer"]++
+			} else {
+				kinds["recreate-leftover-empty"]++
+			}
 		}
 		if !run.layoutOK {
-			setFail("data-file-layout")
+			kinds["data-file-layout-unexpected"]++ // not a property failure by itself; the model comparison reports it
 		}
 		// stored payloads decode to what was written
 		if run.layoutOK {
@@ -984,19 +1056,18 @@ func main() {
 					}
 				}
 				if !bytes.Equal(got, want) {
-					setFail("stored-record-differs")
+					kinds["stored-record-differs"]++
 				}
 			}
 		}
 		// reopened database
 		op := res[run.openID]
 		if op.Kind != "opened" {
-			setFail("open-after-save-failed")
+			addFail("open-after-save-failed", "", -1)
 		} else if h.Hdr != nil && op.Data != *h.Hdr {
-			setFail("header-read-back-differs")
+			addFail("header-read-back-differs", "", -1)
 		}
 		distinctRead := 0
-		failKey := ""
 		for j, k := range h.Lookups {
 			r := res[run.lookIDs[j]]
 			want, _, present := lastWritten(h, k)
@@ -1007,21 +1078,12 @@ func main() {
 					distinctRead++
 				case r.Kind == "rec":
 					kinds["present-key-wrong-record"]++
-					if fail == "" {
-						failKey = k
-					}
-					setFail("present-key-wrong-record")
+					addFail("present-key-wrong-record", k, -1)
 				case r.Kind == "timeout":
-					if fail == "" {
-						failKey = k
-					}
-					setFail("present-key-lookup-hangs")
+					addFail("present-key-lookup-hangs", k, -1)
 				default:
 					kinds["present-key-"+r.Kind]++
-					if fail == "" {
-						failKey = k
-					}
-					setFail("present-key-not-read")
+					addFail("present-key-not-read", k, -1)
 				}
 			} else {
 				switch r.Kind {
@@ -1029,37 +1091,24 @@ func main() {
 					kinds["absent-key-not-found"]++
 				case "timeout":
 					kinds["absent-key-timeout"]++
-					if fail == "" {
-						failKey = k
-					}
-					setFail("absent-key-lookup-hangs")
+					addFail("absent-key-lookup-hangs", k, -1)
 				case "rec":
 					kinds["absent-key-returns-record"]++
-					if fail == "" {
-						failKey = k
-					}
-					setFail("absent-key-returns-record")
+					addFail("absent-key-returns-record", k, -1)
 				default:
 					kinds["absent-key-"+r.Kind]++
-					if fail == "" {
-						failKey = k
-					}
-					setFail("absent-key-" + r.Kind)
+					addFail("absent-key-" + r.Kind, k, -1)
 				}
 			}
 		}
 		// crash cuts
 		cutFailed, cutOpened := 0, 0
-		failCut := -1
 		for ci := range h.Cuts {
 			op := res[run.cutOpenIDs[ci]]
 			switch op.Kind {
 			case "openpanic":
 				kinds["cut-open-panic"]++
-				if fail == "" {
-					failCut = ci
-				}
-				setFail("crash-prefix-open-panics")
+				addFail("crash-prefix-open-panics", "", ci)
 				continue
 			case "openerr":
 				kinds["cut-open-fails"]++
@@ -1077,30 +1126,18 @@ func main() {
 				switch r.Kind {
 				case "rec":
 					if !present || !bytes.Equal(unhex(r.Data), want) {
-						if fail == "" {
-							failCut, failKey = ci, k
-						}
-						setFail("crash-prefix-wrong-record")
+						addFail("crash-prefix-wrong-record", k, ci)
 					} else {
 						kinds["cut-read-ok"]++
 					}
 				case "panic":
-					if fail == "" {
-						failCut, failKey = ci, k
-					}
-					setFail("crash-prefix-read-panics")
+					addFail("crash-prefix-read-panics", k, ci)
 				case "timeout":
 					if present {
-						if fail == "" {
-							failCut, failKey = ci, k
-						}
-						setFail("present-key-lookup-hangs")
+						addFail("present-key-lookup-hangs", k, ci)
 					} else {
 						kinds["cut-absent-key-timeout"]++
-						if fail == "" {
-							failCut, failKey = ci, k
-						}
-						setFail("absent-key-lookup-hangs")
+						addFail("absent-key-lookup-hangs", k, ci)
 					}
 				default:
 					kinds["cut-read-"+r.Kind]++
@@ -1161,14 +1198,15 @@ func main() {
 			if h.Hdr != nil {
 				hdrPlain = vh.Some(zbytes(unhex(*h.Hdr)))
 			}
-			cf.Add(fmt.Sprintf("{| bdc_klen := %s; bdc_comp := %s; bdc_ws := %s; bdc_plain := %s; bdc_sh := %s; bdc_hdr_plain := %s; bdc_data := %s; bdc_hdr := %s; bdc_open_out := %s; bdc_looks := %s; bdc_cuts := %s |}",
-				vh.Nat(h.Klen), vh.Bool(h.Compress), vh.List(ws), vh.List(plain), zbytes(sh), hdrPlain, zbytes(run.data), zbytes(run.hdr),
+			cf.Add(fmt.Sprintf("{| bdc_klen := %s; bdc_comp := %s; bdc_ws := %s; bdc_plain := %s; bdc_sh := %s; bdc_hdr_plain := %s; bdc_old := %s; bdc_data := %s; bdc_hdr := %s; bdc_open_out := %s; bdc_looks := %s; bdc_cuts := %s |}",
+				vh.Nat(h.Klen), vh.Bool(h.Compress), vh.List(ws), vh.List(plain), zbytes(sh), hdrPlain, zbytes(run.old), zbytes(run.data), zbytes(run.hdr),
 				openTerm(res[run.openID]), vh.List(looks), vh.List(cuts)))
 			rep.CaseInputs = append(rep.CaseInputs, h)
 		}
-		if fail != "" {
+		for fail, fk := range fails {
 			// minimal replay: only the failing lookup / cut; the smallest such history per
 			// signature is kept and shrunk after the loop
+			failKey, failCut := fk.key, fk.cut
 			h2 := h
 			if failKey != "" {
 				if failCut >= 0 {
@@ -1183,7 +1221,7 @@ func main() {
 			} else if failCut >= 0 {
 				h2.Cuts = []cutIn{h.Cuts[failCut]}
 			}
-			if old, ok := cand[fail]; !ok || len(h2.Recs) < len(old.h.Recs) {
+			if old, ok := cand[fail]; !ok || len(h2.Recs)+len(h2.Old) < len(old.h.Recs)+len(old.h.Old) {
 				cand[fail] = candT{h2, failKey, failCut}
 			}
 		}
